@@ -531,6 +531,8 @@ class BoundStatement(Statement):
     The sequence of values that were bound to the prepared statement.
     """
 
+    _derived_routing_key = None
+
     def __init__(self, prepared_statement, retry_policy=None, consistency_level=None, routing_key=None,
                  serial_consistency_level=None, fetch_size=FETCH_SIZE_UNSET, keyspace=None,
                  custom_payload=None):
@@ -618,6 +620,8 @@ class BoundStatement(Statement):
 
         self.raw_values = values
         self.values = []
+        # the routing key derived from the previous values (see routing_key) no longer applies
+        self._derived_routing_key = None
         for value, col_spec in zip(values, col_meta):
             if value is None:
                 self.values.append(None)
@@ -661,16 +665,19 @@ class BoundStatement(Statement):
         if not self.prepared_statement.routing_key_indexes:
             return None
 
+        # a routing key given to the constructor is used as it is
         if self._routing_key is not None:
             return self._routing_key
 
-        routing_indexes = self.prepared_statement.routing_key_indexes
-        if len(routing_indexes) == 1:
-            self._routing_key = self.values[routing_indexes[0]]
-        else:
-            self._routing_key = b"".join(self._key_parts_packed(self.values[i] for i in routing_indexes))
+        # otherwise it is derived from the bound values, and cached until the next bind()
+        if self._derived_routing_key is None:
+            routing_indexes = self.prepared_statement.routing_key_indexes
+            if len(routing_indexes) == 1:
+                self._derived_routing_key = self.values[routing_indexes[0]]
+            else:
+                self._derived_routing_key = b"".join(self._key_parts_packed(self.values[i] for i in routing_indexes))
 
-        return self._routing_key
+        return self._derived_routing_key
 
     def __str__(self):
         consistency = ConsistencyLevel.value_to_name.get(self.consistency_level, 'Not Set')
